@@ -20,7 +20,10 @@ MC_CFG = ("CONSTANT NP = %d\nCONSTANT Procs <- MCProcs\nCONSTANT Names <- MCName
           "VIEW vars\nCHECK_DEADLOCK FALSE\nINVARIANT Isolation\nINVARIANT OwnFileOnly\nINVARIANT DistinctNames\nINVARIANT Cleanup\nINVARIANT SolitaryResult\n")
 GEN_CFG = ("CONSTANT NP = %d\nCONSTANT Procs <- MCProcs\nCONSTANT Names <- MCNames\nCONSTANT Kind <- MCKind\nCONSTANT NameMode = \"fresh\"\nINIT GInit\nNEXT GNext\n"
            "CHECK_DEADLOCK FALSE\nCONSTRAINT EmitSched\n")
-TRACE_CFG = ("CONSTANT Procs <- TraceProcs\nCONSTANT Names <- TraceNames\nCONSTANT Kind <- TraceKind\nCONSTANT NameMode = \"fresh\"\nINIT TInit\nNEXT TNext\nCHECK_DEADLOCK FALSE\n")
+REF_CFG = ("CONSTANT NP = %d\nCONSTANT Procs <- MCProcs\nCONSTANT Names <- MCNames\nCONSTANT Kind <- MCKind\nCONSTANT NameMode = \"%s\"\nINIT EInit\nNEXT ENext\n"
+           "CHECK_DEADLOCK FALSE\nINVARIANT DeclAccepts\n")
+TRACE_CFG = "INIT TInit\nNEXT TNext\nCHECK_DEADLOCK FALSE\n"
+PROTOCOL = ["mk", "wr", "rd", "rm", "done"]      # the steps of Concurrent.tla (the present code); anything else that ConcurrentDecl accepts is "drift"
 
 
 class Child(object):
@@ -115,7 +118,8 @@ def gated_run(inputs, schedule, base):
             e = pending[i] if pending[i] is not None else k.next_event()
             # a process with steps left (e.g. a second temp file) is released to the end, its extra steps are recorded
             while e["ev"] not in ("done", "crashed"):
-                events.append({"p": i + 1, "ev": e["ev"], "name": e["name"], "listing": sorted(os.listdir(tmpdir)), "content": "", "outok": True})
+                events.append({"p": i + 1, "ev": e["ev"], "name": e["name"], "listing": sorted(os.listdir(tmpdir)),
+                               "content": file_hash(os.path.join(tmpdir, e["name"])) if e["ev"] == "rd" else "", "outok": True})
                 k.release()
                 e = k.next_event()
             events.append({"p": i + 1, "ev": e["ev"], "name": "", "listing": sorted(os.listdir(tmpdir)), "content": "", "outok": True})
@@ -164,9 +168,9 @@ def solitary(inputs, base):
     for name, path in sorted(inputs.items()):
         b = os.path.join(base, "solo_" + name)
         os.makedirs(b)
-        ev, final, outs, rcs = gated_run([path], [1, 1, 1, 1], b)
+        ev, final, outs, rcs = gated_run([path], [1], b)        # every step beyond the schedule is released and recorded at the end
         rd = [e for e in ev if e["ev"] == "rd"]
-        solo[name] = {"db": outs[0], "content": rd[0]["content"] if rd else "", "steps": [e["ev"] for e in ev], "final": final, "rc": rcs[0]}
+        solo[name] = {"db": outs[0], "contents": [e["content"] for e in rd], "steps": [e["ev"] for e in ev], "final": final, "rc": rcs[0]}
         shutil.rmtree(b)
     return solo
 
@@ -176,7 +180,11 @@ def judge(ctx, traces, label):
     p = ctx.path("conc_%s.json" % label)
     with open(p, "w") as f:
         json.dump({"names": names or ["none"], "maxnp": max(t["np"] for t in traces), "traces": traces}, f)
-    run = ctx.tlc("Trace_Concurrent", TRACE_CFG, env={"TRACE_FILE": p, "MAXNP": max(t["np"] for t in traces)}, label="judge " + label)
+    run = ctx.tlc("Trace_Concurrent", TRACE_CFG, env={"TRACE_FILE": p}, label="judge " + label)
+    for t in traces:
+        for q in range(1, t["np"] + 1):
+            if [e["ev"] for e in t["events"] if e["p"] == q] != PROTOCOL:
+                ctx.extra["protocol_drift"] = ctx.extra.get("protocol_drift", 0) + 1
     if run.distinct != 2 * len(traces):
         raise core.MachineryError("judge visited %d states for %d traces" % (run.distinct, len(traces)))
     ctx.traces += len(traces)
@@ -191,7 +199,7 @@ def run_gated(args):
         for e in ev:
             if e["ev"] == "done":
                 e["outok"] = outs[e["p"] - 1] == solo[kinds[e["p"] - 1]]["db"] and rcs[e["p"] - 1] == 0
-        return {"np": len(kinds), "gated": True, "solo": [solo[k]["content"] for k in kinds], "final": final, "events": ev, "kinds": kinds, "sched": sched}
+        return {"np": len(kinds), "gated": True, "solo": [solo[k]["contents"] for k in kinds], "final": final, "events": ev, "kinds": kinds, "sched": sched}
     finally:
         shutil.rmtree(base, ignore_errors=True)
 
@@ -213,9 +221,15 @@ def burst(ctx, inputs, solo, n, base):
         os.close(k.cw)
         k.p.stderr.close()
         out = G.canon_snap(dbio.proj_file(k.out)) if os.path.exists(k.out) else None
-        events = [{"p": 1, "ev": e["ev"], "name": e["name"], "listing": [], "content": solo[kind]["content"] if e["ev"] == "rd" else "",
-                   "outok": out == solo[kind]["db"] and rc == 0} for e in ev]
-        traces.append({"np": 1, "gated": False, "solo": [solo[kind]["content"]], "final": [], "events": events, "kinds": [kind], "burst": n})
+        events = []
+        nrd = 0
+        for e in ev:
+            content = ""
+            if e["ev"] == "rd":       # free-running: the content is not sampled (no gate), the per-process clauses and the output are judged
+                content = solo[kind]["contents"][nrd] if nrd < len(solo[kind]["contents"]) else ""
+                nrd += 1
+            events.append({"p": 1, "ev": e["ev"], "name": e["name"], "listing": [], "content": content, "outok": out == solo[kind]["db"] and rc == 0})
+        traces.append({"np": 1, "gated": False, "solo": [solo[kind]["contents"]], "final": [], "events": events, "kinds": [kind], "burst": n})
     final = sorted(os.listdir(tmpdir))
     shutil.rmtree(base, ignore_errors=True)
     return traces, final
@@ -260,6 +274,13 @@ def run(ctx):
         if mode == "fixed" and r.violated is None:
             ctx.violation({"tlc": "MC_Concurrent fixed names"}, "model:fixed_names_do_not_break_isolation", None)
         ctx.extra["names_%s_%d" % (mode, np_)] = r.violated or "all invariants hold"
+    # the code-shaped protocol refines the declarative judge (and does not, with fixed names)
+    for np_, mode in ((2, "fresh"), (2, "fixed")) + (((3, "fresh"),) if thorough else ()):
+        r = ctx.tlc("MC_Concurrent", REF_CFG % (np_, mode), expect="inv", label="Concurrent refines ConcurrentDecl: %d processes, names %s" % (np_, mode))
+        if (mode == "fresh") != r.ok:
+            ctx.violation({"tlc": "MC_Concurrent refinement", "np": np_, "names": mode}, "model:DeclAccepts_%s" % ("violated" if mode == "fresh" else "holds_with_fixed_names"),
+                          {"log": ctx.keep_log("MC_Concurrent_ref", r.out)})
+        ctx.extra["refines_decl_%s_%d" % (mode, np_)] = r.violated or "DeclAccepts holds"
     gen = ctx.tlc("MC_Concurrent", GEN_CFG % 2, workers=4, label="schedules of two processes")
     scheds = sorted(set(tuple(int(x) for x in re.findall(r"\d+", m)) for m in re.findall(r"<<\"SCHED\", <<([0-9, ]+)>>>>", gen.out)))
     if len(scheds) != 70:
